@@ -165,6 +165,46 @@ fn c05_cases() -> Vec<(String, World, Query)> {
     out
 }
 
+/// extreme weight factors (algorithm config and per-query "weight_factor") with non-zero heuristic tables: with
+/// 1e308 / f64::MAX every f-score overflows to +infinity, with 5e-324 / 1e-300 the estimate underflows; the answer
+/// must still be Ok iff reachable.
+fn extreme_factor_cases() -> Vec<(String, World, Query)> {
+    let mut out: Vec<(String, World, Query)> = vec![];
+    let factors = [0.0, 5e-324, 1e-300, 1e300, 1e308, f64::MAX];
+    for wf in factors {
+        for place in ["config", "query", "query_over_config"] {
+            for dir in [Dir::Forward, Dir::Reverse] {
+                let mk = |n: usize, es: &[(usize, usize)], cs: &[f64], forbid: &[usize], h: &[f64]| {
+                    let es2: Vec<(usize, usize)> = es.iter().map(|(a, b)| if dir == Dir::Reverse { (*b, *a) } else { (*a, *b) }).collect();
+                    let mut w = World::new(n, es2, cs.to_vec());
+                    w.forbid = forbid.to_vec();
+                    w.h = h.to_vec();
+                    w
+                };
+                let q = |orient: Orient, s: usize, t: Option<usize>| {
+                    let (alg, query_wf) = match place {
+                        "config" => (Alg::AStar(Some(wf)), None),
+                        "query" => (Alg::Dijkstra, Some(wf)),
+                        _ => (Alg::AStar(Some(1.0)), Some(wf)),
+                    };
+                    Query { alg, dir, orient, source: s, target: t, query_wf }
+                };
+                let name = |shape: &str| format!("extreme_factor_{}#{}:{:e}", shape, place, wf);
+                // reachable, with a decrease-key on the way (0->2 direct 10, 0->1->2 3), destination 3
+                let diamond = mk(5, &[(0, 2), (0, 1), (1, 2), (2, 3), (3, 4)], &[10.0, 1.0, 2.0, 1.0, 1.0], &[], &[6.5, 3.25, 1.5, 0.75, 2.0]);
+                out.push((name("reachable"), diamond.clone(), q(Orient::Vertex, 0, Some(3))));
+                out.push((name("reachable_neighbour"), diamond.clone(), q(Orient::Vertex, 0, Some(1))));
+                out.push((name("eo_reachable"), diamond.clone(), q(Orient::Edge, 1, Some(4))));
+                // unreachable: other component / forbidden bridge
+                let split = mk(5, &[(0, 1), (1, 0), (1, 2), (3, 4), (2, 3)], &[1.0, 1.0, 2.0, 1.0, 4.0], &[4], &[2.0, 1.0, 0.5, 8.0, 0.25]);
+                out.push((name("unreachable"), split.clone(), q(Orient::Vertex, 0, Some(4))));
+                out.push((name("eo_unreachable"), split.clone(), q(Orient::Edge, 0, Some(3))));
+            }
+        }
+    }
+    out
+}
+
 fn rand_costs(rng: &mut Rng, m: usize) -> Vec<f64> {
     if rng.chance(2, 3) {
         gen_costs(rng, m, CostFamily::TieFree)
@@ -279,7 +319,7 @@ fn main() {
     silence_panics();
     let a = parse_args();
     if a.stream == "probe" {
-        for (name, w, q) in c05_cases().into_iter().chain(boundary_cases()) {
+        for (name, w, q) in c05_cases().into_iter().chain(extreme_factor_cases()).chain(boundary_cases()) {
             let o = run_query_watchdog(&w, &q, WATCHDOG_MS);
             println!("{:34} {:?} {:?} {:?} s={} t={:?} forbid={:?} :: {}", name, q.alg, q.dir, q.orient, q.source, q.target, w.forbid, summary(&q, &o));
         }
@@ -300,6 +340,9 @@ fn main() {
     let mut rng = Rng::new(a.seed);
     // ---- deterministic boundary families first ----
     for (name, w, q) in c05_cases() {
+        add_case(&mut cx, &name, &w, &q, json!({}));
+    }
+    for (name, w, q) in extreme_factor_cases() {
         add_case(&mut cx, &name, &w, &q, json!({}));
     }
     for (name, w, q) in boundary_cases() {
